@@ -752,7 +752,11 @@ class Util:
     @staticmethod
     def any(futures: Iterable[asyncio.Future], timeout=None):
         """Return first future."""
-        return Util.first(futures, timeout, False)
+        futures = [asyncio.ensure_future(f) for f in futures]
+        task = asyncio.ensure_future(Util.first(futures, timeout, False))
+        # a task which is cancelled before its first step never reaches the clean-up in first()
+        task.add_done_callback(lambda t: Util.cancel_futures(futures) if t.cancelled() else None)
+        return task
 
     @staticmethod
     async def first(futures: Iterable[asyncio.Future], timeout=None, cancel_others=True):
